@@ -370,9 +370,15 @@ def _build_distmat(rec, scratch):
         if k == "take":
             d = d.take_dists(op[1], negate=op[2])
         elif k == "drop_invalid":
-            d = d.drop_invalid() or d
+            d = d.drop_invalid()
+        elif k == "deepcopy":
+            import copy as _copy
+
+            d = _copy.deepcopy(d)
         else:
             raise ValueError(k)
+        if d is None:
+            return None
     return d
 
 
@@ -543,12 +549,20 @@ def _build_lf(rec, scratch):
     sm = get_model(rec["model"], **rec.get("kw", {}))
     tree = cogent3.make_tree(treestring=rec["tree"])
     aln = _build_coll(rec["aln"], scratch)
-    lf = sm.make_likelihood_function(tree, **rec.get("lf_kw", {}))
-    lf.set_alignment(aln)
+    lf_kw = dict(rec.get("lf_kw", {}))
+    lf = sm.make_likelihood_function(tree, **lf_kw)
+    if isinstance(lf_kw.get("loci"), list):
+        # one alignment per locus: the second locus is the first one read backwards by columns
+        alns = [aln] + [aln[:: -1] if False else aln.take_positions(list(range(len(aln)))[::-1]) for _ in lf_kw["loci"][1:]]
+        lf.set_alignment(alns)
+    else:
+        lf.set_alignment(aln)
     if rec.get("name"):
         lf.set_name(rec["name"])
     for rule in rec.get("rules", []):
         lf.set_param_rule(**rule)
+    if rec.get("time_het"):
+        lf.set_time_heterogeneity(**rec["time_het"])
     if rec.get("optimise"):
         lf.optimise(max_evaluations=rec["optimise"], limit_action="ignore", show_progress=False, local=True)
     return lf
@@ -560,7 +574,12 @@ def _build_nc(rec, scratch):
     src = rec.get("source")
     if isinstance(src, dict):
         src = build(src, scratch)
-    return NotCompleted(rec["type"], rec["origin"], rec["message"], source=src)
+    origin = rec["origin"]
+    if isinstance(origin, dict):
+        from cogent3.app import get_app
+
+        origin = get_app(origin["app"], **({"number": 2} if origin["app"] == "take_n_seqs" else ({"length": 3} if origin["app"] == "min_length" else {})))
+    return NotCompleted(rec["type"], origin, rec["message"], source=src)
 
 
 def _build_result(rec, scratch):
@@ -729,8 +748,6 @@ def gen_coll(rng, kind=None, small=False):
             ops.append(["deepcopy"])
         elif r < 0.58 and mt in ("dna", "rna") and not any(o[0] == "to_moltype" for o in ops):
             ops.append(["to_moltype", "rna" if mt == "dna" else "dna"])
-        elif r < 0.62 and not any(o[0] in ("take", "rename", "seqname") for o in ops):
-            ops.append(["seqname", rng.choice(list(seqs)), "renamed_obj"])
         elif r < 0.68 and aligned and cur > 1:
             pos = sorted(rng.sample(range(cur), rng.randint(1, cur - 1)))
             ops.append(["take_pos", pos])
@@ -989,9 +1006,19 @@ def gen_distmat(rng):
         dists.append([a, b, v])
         dists.append([b, a, v])
     ops = []
+    extra = []
+    if n > 2 and rng.random() < 0.3:
+        # one pair without a valid distance (None -> nan)
+        a, b = rng.sample(names, 2)
+        dists = [[x, y, (None if {x, y} == {a, b} else v)] for x, y, v in dists]
+        extra.append("invalid")
+        if rng.random() < 0.6:
+            ops.append(["drop_invalid"])
     if n > 2 and rng.random() < 0.5:
         ops.append(["take", rng.sample(names, rng.randint(2, n - 1)), rng.random() < 0.3])
-    return dict(family="distmat", dists=dists, ops=ops, hclass=hist_class(ops))
+    if rng.random() < 0.1:
+        ops.append(["deepcopy"])
+    return dict(family="distmat", dists=dists, ops=ops, hclass=hist_class(ops, extra))
 
 
 def gen_alphabet(rng):
@@ -1172,22 +1199,46 @@ def gen_lf(rng, optimise=False):
         else:
             rules.append(dict(par_name="kappa", init=1.5, upper=20.0, lower=0.1))
             extra.append("bounded")
-    if model in ("HKY85", "GTR") and rng.random() < 0.2:
+    kw = {}
+    time_het = None
+    q = rng.random()
+    if model in ("HKY85", "GTR") and q < 0.2:
+        kw = dict(with_rate=True, distribution="gamma")
         lf_kw = dict(bins=2)
         extra.append("bins")
-    if model in ("F81", "HKY85") and rng.random() < 0.2:
-        lf_kw = dict(discrete_edges=None)
-    return dict(family="lf", model=model, kw={}, tree=tree, aln=aln, rules=rules, lf_kw=lf_kw, name=rng.choice([None, "my lf"]), optimise=(rng.choice([3, 6]) if optimise else 0), ops=[], hclass="+".join(sorted(set(extra + (["optimised"] if optimise else [])))))
+    elif model in ("F81", "HKY85", "JC69", "GTR") and q < 0.4:
+        lf_kw = dict(loci=["l1", "l2"])
+        extra.append("loci")
+    elif model in ("HKY85", "TN93", "GTR") and q < 0.6 and not any(r_["par_name"] == "kappa" for r_ in rules):
+        time_het = dict(edge_sets=[dict(edges=[names[0], names[1]])], is_independent=rng.random() < 0.5)
+        extra.append("time_het")
+    if model in ("F81", "JC69") and rng.random() < 0.15:
+        rules.append(dict(par_name="length", edge=names[-1], init=0.4, lower=0.01, upper=5.0))
+        extra.append("bounded")
+    return dict(family="lf", model=model, kw=kw, tree=tree, aln=aln, rules=rules, lf_kw=lf_kw, time_het=time_het, name=rng.choice([None, "my lf"]), optimise=(5 if optimise else 0), ops=[], hclass="+".join(sorted(set(extra + (["optimised"] if optimise else [])))))
 
 
 def gen_nc(rng):
     src = rng.choice([None, "path/to/file.fa", "x.json"])
     rec = dict(family="nc", type=rng.choice(["ERROR", "FAIL", "BUG"]), origin=rng.choice(["app_x", "take_n", "model"]), message=rng.choice(["something broke", "Traceback: line 3\nValueError('x')", ""]), source=src, ops=[], hclass="fresh")
-    if rng.random() < 0.25:
+    r = rng.random()
+    if r < 0.2:
         c = gen_coll(rng, kind="Alignment")
         c["info"] = {"source": "from_aln.fa"}
         rec["source"] = c
         rec["hclass"] = "source_obj"
+    elif r < 0.35:
+        # origin given as an object (an app instance): NotCompleted records its class name
+        rec["origin"] = {"app": rng.choice(["take_n_seqs", "omit_degenerates", "min_length"])}
+        rec["hclass"] = "origin_obj"
+    elif r < 0.5:
+        # source is itself a NotCompleted produced upstream (nested): its .source is inherited
+        rec["source"] = dict(family="nc", type="FAIL", origin="upstream", message="first failure", source=rng.choice(["deep/file.fa", None]), ops=[], hclass="fresh")
+        rec["hclass"] = "nested_nc"
+    elif r < 0.6:
+        rec["source"] = gen_seq(rng, impl="old")
+        rec["source"]["info"] = {"source": "seq_src.fa"}
+        rec["hclass"] = "source_seq"
     return rec
 
 
@@ -1221,10 +1272,8 @@ def gen_result(rng, heavy=False):
     q = rng.random()
     if q < 0.5:
         lf = gen_lf(rng)
-        lf["name"] = None
         return dict(family="result", kind="model", name="m1", source="src.fa", lf=lf, ops=[], hclass="model:" + lf["hclass"])
     lf1 = gen_lf(rng)
-    lf1["name"] = None
     lf2 = dict(lf1)
     lf2["model"] = "HKY85" if lf1["model"] != "HKY85" else "GTR"
     lf2["rules"] = [r_ for r_ in lf1["rules"] if r_["par_name"] == "length"]
